@@ -2496,8 +2496,10 @@ class CencSampleEncryptionBox(FullBox):
         return rv
 
     def encode_fields(self, dest):
-        if len(self.samples) > 0:
-            self.flags |= 0x02
+        for samp in self.samples:
+            if samp.subsamples:
+                self.flags |= CencSampleAuxiliaryData.UseSubsampleEncryption
+                break
         super().encode_fields(dest)
 
     def encode_box_fields(self, dest):
